@@ -28,6 +28,9 @@ func TestC20Explore(t *testing.T) {
 		f := oracle(c, o)
 		if o.Excluded != "" {
 			excl[o.Excluded]++
+			if o.Excluded == "HARNESS_parse_error" && excl[o.Excluded] < 6 {
+				fmt.Println("PARSE ERROR:\n" + o.Key[len(prelude):])
+			}
 		}
 		if f != nil {
 			count[f.Sig]++
